@@ -29,6 +29,7 @@ FAMILIES = {
     "BIG": (1, 300, 4, 1600, 5),
     "OP": (4, 120, 4, 260, 5),
     "G1": (4, 120, 4, 260, 5),
+    "TRI": (2, 120, 4, 260, 5),
 }
 UNIVERSE_SHARDS = 4
 # families whose universe is wider than the first 4 shards: the literal / reverse-search / class-sequence strategies are
@@ -896,7 +897,7 @@ def c05(prop, tier):
         # every haystack of length <= 2 (quick) resp. <= 3 (thorough) over the pattern's alphabet: the pumped families of the
         # quick tier are a subset of the thorough tier's
         jobs = [(fam, dict(c, Budget=60 if q else 400, LCap=2 if q else 3))
-                for fam, c in search_jobs(tier, ["CC", "REV", "G2a", "CAP", "LIT", "DIG", "ANC", "G2u"], False, 1.0)]
+                for fam, c in search_jobs(tier, ["CC", "REV", "G2a", "CAP", "LIT", "DIG", "ANC", "G2u", "TRI", "G1"], False, 1.0)]
         if q:   # a third of the shard's patterns (indices i with i % 3n = s are a subset of those with i % n = s)
             jobs = [(f, dict(c, NShards=c["NShards"] * 3)) for f, c in jobs]
         states = trans = 0
